@@ -324,6 +324,39 @@ def _cover5_chunk(params, lo, hi):
     return r
 
 
+def _int4_chunk(params, lo, hi):
+    """four integer variables with explicit rows x_j <= 2 and one general row: a covering row w.x >= K (minimise) or a
+    knapsack row w.x <= K (maximise); all integer. Trees of about ten LP nodes with an incumbent found while several open
+    nodes (some dominated, some not) wait in the queue. params = (kind, weight alphabet, Ks, cost alphabet);
+    index = ((w_code*len(Ks) + k)*ncost + c_code)*2 + heuristics"""
+    kind, wa, Ks, ca = params
+    r = new_result()
+    geo = None
+    gkey = None
+    ncost = len(ca) ** 4
+    for idx in range(lo, hi):
+        heur = idx % 2 == 0
+        k = idx // 2
+        c = [ca[d] for d in digits(k % ncost, len(ca), 4)]
+        k //= ncost
+        K = Ks[k % len(Ks)]
+        w = [wa[d] for d in digits(k // len(Ks), len(wa), 4)]
+        A = [[1 if a == j else 0 for a in range(4)] for j in range(4)] + [[-x for x in w] if kind == "cover" else list(w)]
+        b = [2] * 4 + [-K if kind == "cover" else K]
+        if (tuple(w), K) != gkey:
+            geo = Geometry(A, b, 4)
+            gkey = (tuple(w), K)
+        kw = {} if heur else {"heuristics": False}
+        minimize = kind == "cover"
+        errs, label, nt = judge(geo, c, (0, 1, 2, 3), minimize, kw)
+        wit = {"c": c, "A": A, "b": b, "integers": [0, 1, 2, 3], "minimize": minimize, "config": kw}
+        _rec(r, errs, label, nt, wit, f"solve_milp(c={c}, A={A}, b={b}, integers=[0, 1, 2, 3], minimize={minimize}, {kw})")
+        if len(r["violations"]) >= 40 or too_many_hangs():
+            r["capped"] = True
+            break
+    return r
+
+
 def _binary_chunk(params, lo, hi):
     """3 variables, rows x_j<=1 (j=0..2) + one general row a.x<=b0 (+ optionally a second); all integer.
     index = ((a_code*4 + b0)*64 + c_code)*2 + minimize ; second row from params"""
@@ -486,6 +519,14 @@ def jobs(tier, seed):
     else:
         bb = seed % 9
         js.append(Job(f"binary5_covering_row_costblock{bb}of9", 243 * 3 * 27 * 2, _cover5_chunk, (bb * 27, 27), describe="5 binaries, one covering row with every weight vector over {1,2,5} and K in {4,6,8}; costs over {1,2,3}: rotating 1/9 block of the cost vectors (VERIF_SEED); heuristics on/off"))
+    cov = ("cover", (1, 2, 3), (3, 5, 7, 9, 11), (1, 2, 3))
+    js.append(Job("int4_covering_row", 81 * 5 * 81 * 2, _int4_chunk, cov, describe="4 integers in 0..2, one covering row with weights over {1,2,3}, K in {3,5,7,9,11}, costs over {1,2,3}, minimise, heuristics on/off (integral LP bounds carrying float residue; trees of about ten nodes)"))
+    if tier == "thorough":
+        kn = ("knap", (2, 3, 4, 5), (7, 9, 11), (1, 2, 3, 4))
+        js.append(Job("int4_knapsack_row", 256 * 3 * 256 * 2, _int4_chunk, kn, describe="4 integers in 0..2, one knapsack row with weights over {2..5}, K in {7,9,11}, values over {1..4}, maximise, heuristics on/off"))
+    else:
+        kn = ("knap", (2, 3, 4), (7, 9, 11), (2, 3, 4))
+        js.append(Job("int4_knapsack_row_234", 81 * 3 * 81 * 2, _int4_chunk, kn, describe="4 integers in 0..2, one knapsack row with weights over {2,3,4}, K in {7,9,11}, values over {2,3,4}, maximise, heuristics on/off (incumbents found while dominated and non-dominated nodes wait in the queue)"))
     js.append(Job("binary3_one_row", 64 * 4 * 64 * 2, _binary_chunk, None, describe="3 variables with explicit x_j<=1 rows + one general row; all-integer and mixed; rounding heuristic, LNS seeds, limits, warm starts"))
     js.append(Job("binary3_two_rows", 64 * 4 * 64 * 2, _binary_chunk, ((1, 1, 1), 2), describe="same with an extra cardinality row x0+x1+x2<=2"))
     na = 3 if tier == "thorough" else 1
